@@ -37,4 +37,11 @@ def requiredConverterFacts : List String :=
 def converterFactsOk (l : List (String × Bool)) : Bool :=
   l.all (·.2) && requiredConverterFacts.all (fun k => l.any (fun e => e.1 == k))
 
+/-- The places of `_public.py` / `_inline.py` where an order is taken from a set, and why each is harmless:
+    `inline`'s `for name in missing` only fills the dictionary `kwargs`, which is then read in the order of
+    `in_names` (a list). Any other site is unknown to this model. -/
+def knownSetIterations : List (String × String × String) := [("_public.py", "inline", "missing")]
+
+def setIterOk (l : List (String × String × String)) : Bool := l.all knownSetIterations.contains
+
 end FrontFacts
